@@ -5,11 +5,11 @@ import re
 
 ID = "C16"
 AREA = "hdr"
-COQ_TARGETS = ["theories/Props/C16.vo", "theories/Props/C16c.vo"]
+COQ_TARGETS = ["theories/Props/C16.vo", "theories/Props/C16c.vo", "theories/Props/C16e.vo"]
 REQUIRES = ["From Coq Require Import List NArith Bool.", "From Coq.Strings Require Import Byte.",
-            "From MS Require Import Base.Bytes Base.Outcome Mp4.Header Mp4.HeaderSpec Mp4.Box Mp4.BoxLazy Mp4.BoxOps Props.C16 Props.C16c.",
+            "From MS Require Import Base.Bytes Base.Outcome Mp4.Header Mp4.HeaderSpec Mp4.Box Mp4.BoxLazy Mp4.BoxOps Mp4.BoxEdit Props.C16 Props.C16c Props.C16e.",
             "Import ListNotations.", "Open Scope N_scope."]
-COQCHK = ["MS.Props.C16", "MS.Props.C16c"]
+COQCHK = ["MS.Props.C16", "MS.Props.C16c", "MS.Props.C16e"]
 
 THEOREMS = [
     ("C16_header_roundtrip", """
@@ -56,6 +56,18 @@ THEOREMS = [
   parse_moov p = Ok kids ->
   put_nodes (fst (run_ops ops 0 kids)) = p /\\
   N.of_nat (length (put_nodes (fst (run_ops ops 0 kids)))) = nodes_encoded_len (fst (run_ops ops 0 kids))"""),
+    # ---- after a caller edit that changes a payload length (Mp4/BoxEdit.v); proofs in Mp4/BoxEditProofs.v
+    ("C16_edit_len_agrees", """
+  forall (n : node), node_wf n = true ->
+  forall b : bytes, put_calc n = Ok b -> len_calc n = Ok (N.of_nat (length b))"""),
+    ("C16_calc_is_plain", """
+  forall (fuel : nat) (buf : bytes) (ns ns' : list node),
+  parse_boxes fuel buf = Ok ns -> Forall2 forces ns ns' ->
+  puts_calc ns' = Ok buf /\\ lens_calc ns' = Ok (N.of_nat (length buf))"""),
+    ("C16_edited_moov_len", """
+  forall (p : bytes) (kids : list node) (ops : list (nat * nat)) (i m : nat) (kids' : list node) (b : bytes),
+  parse_moov p = Ok kids -> edit_trak i m (fst (run_ops ops 0 kids)) = Ok kids' ->
+  puts_calc kids' = Ok b -> lens_calc kids' = Ok (N.of_nat (length b))"""),
 ]
 
 TRUSTED = [
@@ -86,7 +98,10 @@ RULE = ("hdrparse: every truncation length of headers built from size fields {0,
         "lazy: a call i.k = iterate traks() to the i-th trak and apply the first k of mdia_mut/minf_mut/stbl_mut/co_mut; exhaustive: no call, each of the "
         "15 calls (i in 0..2, k in 0..4) and each of the 225 ordered pairs on a two-trak moov with unknown siblings, 64-bit child header, stco + co64; "
         "random: structure-aware moov payloads (1-4 traks, unknown/uuid siblings at every level, 32/64-bit/until-end child headers, 0-6 entries) x random "
-        "sequences of 0-6 calls (index may exceed the trak count); payloads MoovBox::parse refuses. Non-trivial = at least one call on >= 40 bytes.")
+        "sequences of 0-6 calls (index may exceed the trak count); payloads MoovBox::parse refuses. Non-trivial = at least one call on >= 40 bytes. "
+        "lazyedit (caller edits): after the calls the chunk-offset table of one trak is REPLACED by m entries (`*stco = (1..=m).collect()`), which changes "
+        "the payload length of the table and of every ancestor: all 16 combinations of 32/64-bit headers on trak/mdia/minf/stbl (+ until-end forms) x 5 "
+        "table forms x m in 0..7 x 3 call prefixes, and random trees; oracle: encoded_len = bytes written and the output is a sequence of whole boxes.")
 EXHAUSTIVE = {"quick": False, "thorough": False}
 XCHECK_N = 60
 NOTES = ["part (c) (lazy box tree): theorems C16_lazy_roundtrip / C16_encoded_len_agrees quantify over EVERY sequence of successful forcings "
@@ -309,7 +324,28 @@ def gen_lazy(run):
         yield "lazy %s 0.4" % tr.hex(), "lazy-failing-calls"
 
 
-GENERATORS = [gen_hdrparse, gen_hdrmk, gen_lazy]
+def gen_lazyedit(run):
+    """caller edits that change a payload length: the table of one trak is replaced by m entries; header forms (32-bit, 64-bit,
+    until-end, uuid siblings) at every level of the chain so that re-derived headers change form"""
+    import itertools
+    import mp4gen as G
+    rng = run.rng
+    quick = run.tier == "quick"
+    udta = G.box(b"udta", b"x")
+    forms = list(itertools.product(("32", "64"), repeat=4)) + [("32", "32", "32", "eof"), ("eof", "64", "32", "64"), ("64", "eof", "64", "32")]
+    for fm in forms:
+        for tab in (G.stco([1, 2, 3], form="32"), G.stco([1, 2, 3], form="64"), G.co64([5], form="64"), G.co64([], form="32"), G.stco([9], form="eof")):
+            pl = udta + G.trak(tab, extra_stbl=(udta,), forms=fm) + G.trak(G.stco([4]))
+            for m in ((0, 1, 3, 4) if quick else (0, 1, 2, 3, 4, 7)):
+                for ops in ("-", "0.4", "0.2,1.4"):
+                    yield "lazyedit %s %s 0 %d" % (pl.hex(), ops, m), "lazyedit-forms"
+    for pl in _lazy_valid_payloads(rng, 40 if quick else 2000):
+        ntr = max(1, pl.count(b"trak"))
+        for _ in range(3):
+            yield "lazyedit %s %s %d %d" % (pl.hex(), _rand_ops(rng, ntr, 3), rng.randrange(0, ntr + 1), rng.choice([0, 1, 2, 5, 33])), "lazyedit-random"
+
+
+GENERATORS = [gen_hdrparse, gen_hdrmk, gen_lazy, gen_lazyedit]
 
 
 def gen(run):
@@ -336,6 +372,11 @@ def classify(line, impl):
     if not impl:
         return kind + ":missing"
     t = impl.split()
+    if kind == "lazyedit":
+        if t[0] != "ok":
+            return "lazyedit:" + " ".join(t[:4])
+        n = len(impl.split("put=")[1].split()[0]) // 2
+        return "lazyedit:ok-" + ("grown" if n > len(line.split()[1]) // 2 else "shrunk-or-same")
     if kind == "lazy":
         return "lazy:" + (" ".join(t[:3]) if t[0] != "ok" else "ok-%dcalls" % (0 if line.split()[2] == "-" else len(line.split()[2].split(","))))
     if t[0] == "ok":
@@ -470,7 +511,48 @@ def known_class(line, impl):
     return None
 
 
-ORACLES = {"hdrparse": oracle_hdrparse, "hdrmk": oracle_hdrmk, "lazy": oracle_lazy}
+def oracle_lazyedit(line, impl):
+    """C16 as worded, after a caller edit: serialising writes exactly encoded_len bytes, and what was written is a sequence of whole
+    boxes (every declared size accounts for the bytes that follow: walked here independently of the model)"""
+    if impl in ("panic", "missing", ""):
+        return False, "no result (%s)" % (impl or "missing")
+    if not impl.startswith("ok "):
+        return impl.startswith("err parse"), "a call failed before the edit: nothing to judge (%s)" % impl
+    f = dict(tok.split("=", 1) for tok in impl.split()[1:])
+    put = bytes.fromhex(f["put"]) if f.get("put", "-") != "-" else b""
+    probs = []
+    if int(f.get("elen", -1)) != len(put):
+        probs.append("encoded_len %s but %d bytes written" % (f.get("elen"), len(put)))
+
+    def walk(b, depth):
+        off = 0
+        while off < len(b):
+            if len(b) - off < 8:
+                return "stray bytes at depth %d" % depth
+            size, typ, hl = int.from_bytes(b[off:off + 4], "big"), b[off + 4:off + 8], 8
+            if size == 1:
+                if len(b) - off < 16:
+                    return "truncated 64-bit size"
+                size, hl = int.from_bytes(b[off + 8:off + 16], "big"), 16
+            elif size == 0:
+                size = len(b) - off
+            if typ == b"uuid":
+                hl += 16
+            if size < hl or off + size > len(b):
+                return "box %r at depth %d declares %d bytes, %d present" % (typ, depth, size, len(b) - off)
+            if typ in (b"trak", b"mdia", b"minf", b"stbl"):
+                r = walk(b[off + hl:off + size], depth + 1)
+                if r:
+                    return r
+            off += size
+        return None
+    w = walk(put, 0)
+    if w:
+        probs.append("the serialisation is not a sequence of whole boxes: " + w)
+    return (not probs), "; ".join(probs) or "ok"
+
+
+ORACLES = {"hdrparse": oracle_hdrparse, "hdrmk": oracle_hdrmk, "lazy": oracle_lazy, "lazyedit": oracle_lazyedit}
 
 
 def oracle(run, pairs):
@@ -615,7 +697,11 @@ LEVEL_TEXT = ("Parts (a),(b): theorems C16_header_roundtrip (both directions, an
               "encoded_len (C16_lazy_roundtrip, C16_encoded_len_agrees); the accessor chain the sanitizer runs is such a sequence "
               "(C16_accessors_are_forcings), and so is every call sequence of the `lazy` correspondence batch (C16_lazy_ops_roundtrip), which drives "
               "the real MoovBox / TrakBox / MdiaBox / MinfBox / StblBox accessors in generated orders and compares put_buf and encoded_len with "
-              "the extracted model. Histories containing a FAILED accessor call are outside the theorems (finding D9, see notes).")
+              "the extracted model. Caller edits that change a payload length: Mp4/BoxEdit.v models Mp4Box::calculated_header (parsed header kept while the "
+              "payload length is the declared one, otherwise a fresh shortest-form header; parents sum their children's encoded_len); for EVERY tree "
+              "the bytes written are encoded_len many (C16_edit_len_agrees), the no-edit case is the plain model (C16_calc_is_plain), and the "
+              "`lazyedit` batch compares the real put_buf / encoded_len after a table replacement with the extracted model. "
+              "Histories containing a FAILED accessor call are outside the theorems (finding D9, see notes).")
 LEVEL_NOTE = ("Trusted: Coq kernel; the hand-written header model (compared with the implementation on every run); extraction and OCaml driver; "
               "the Rust harness; the Python reading of the ISO box-header layout used as oracle. No axioms. FourCC `uuid` as a box type "
               "(BoxType::UUID) is outside the quantifier: it serialises to bytes that read back as a uuid-typed box.")
